@@ -22,8 +22,29 @@ def rule_lmnn_acceptance(repo, rep):
   rep.analysed(f)
   loops = [n for n in ast.walk(f.node) if isinstance(n, ast.While) and
            isinstance(n.test, ast.Constant) and n.test.value is True]
+  if not loops:
+    # a bounded retry loop: besides its breaks it also ends by exhaustion
+    cand = [n for n in ast.walk(f.node) if isinstance(n, (ast.For, ast.While))
+            and any(isinstance(b, ast.Break) for b in ast.walk(n))
+            and any(isinstance(a, (ast.AugAssign, ast.Assign)) and
+                    'learn_rate' in ast.unparse(
+                        a.target if isinstance(a, ast.AugAssign)
+                        else a.targets[0]) for a in ast.walk(n))
+            and not any(isinstance(m, (ast.For, ast.While)) and m is not n
+                        for m in ast.walk(n))]
+    if len(cand) == 1:
+      loops = cand
+      if cand[0].orelse:
+        rep.unknown(R, 'LMNN.fit:exit-by-exhaustion', site(f, cand[0]),
+                    'bounded retry loop with an else clause')
+      else:
+        rep.refuted(R, 'LMNN.fit:exit-by-exhaustion', site(f, cand[0]),
+                    'the retry loop `%s` also ends when its bound is '
+                    'exhausted: the last candidate is then accepted although '
+                    'its objective is larger' % ast.unparse(cand[0]).split(
+                        '\n')[0])
   if len(loops) != 1:
-    rep.unknown(R, 'LMNN.fit:retry-loop', site(f), '%d `while True` loops'
+    rep.unknown(R, 'LMNN.fit:retry-loop', site(f), '%d retry loops found'
                 % len(loops))
     return
   w = loops[0]
@@ -414,11 +435,152 @@ def rule_lmnn_objective(repo, rep):
             '<L G, L> is 2 L G' % ast.unparse(ret[0].value.elts[0]))
 
 
+def rule_lmnn_impostor_enumeration(repo, rep):
+  """Every unordered pair of differently-labelled points is examined exactly
+  once: the classes are visited in order, `in` = the class, `out` = the
+  classes after it; rows of the distance block are the out points, columns
+  the in points, and each margin is compared along its own axis."""
+  R = 'R-FRAME:lmnn-impostor-pairs-once'
+  rep.rule(R, 'LMNN._find_impostors visits every pair of differently '
+           'labelled points exactly once (in: label == c, out: label > c) '
+           'and compares the pair distance with the margin radius of the out '
+           'point along the rows and of the in point along the columns; the '
+           'returned index pairs are (in_inds[column], out_inds[row])')
+  f = repo.get_func('lmnn.LMNN._find_impostors')
+  rep.analysed(f)
+  loops = [n for n in f.node.body if isinstance(n, ast.For)]
+  if len(loops) != 1 or not isinstance(loops[0].target, ast.Name):
+    rep.unknown(R, 'LMNN._find_impostors', site(f), 'class loop not found')
+    return
+  lp = loops[0]
+  lab = lp.target.id
+  it = ast.unparse(lp.iter)
+  sets = {}
+  for s_ in lp.body:
+    if isinstance(s_, ast.Assign) and isinstance(s_.value, ast.Call) and \
+            canon(repo.dotted(f.module, s_.value.func) or '') == \
+            canon('numpy.nonzero') and len(s_.value.args) == 1 and \
+            isinstance(s_.value.args[0], ast.Compare) and \
+            len(s_.value.args[0].ops) == 1:
+      c = s_.value.args[0]
+      l, r = ast.unparse(c.left), ast.unparse(c.comparators[0])
+      op = type(c.ops[0]).__name__
+      if l == lab:
+        l, r = r, l
+        op = {'Gt': 'Lt', 'Lt': 'Gt', 'GtE': 'LtE', 'LtE': 'GtE'}.get(op, op)
+      if r == lab and l == 'label_inds':
+        tg = s_.targets[0]
+        nm = tg.elts[0].id if isinstance(tg, ast.Tuple) and tg.elts and \
+            isinstance(tg.elts[0], ast.Name) else None
+        if nm:
+          sets[nm] = (op, s_)
+  ins = [n for n, (op, _) in sets.items() if op == 'Eq']
+  outs = [n for n, (op, _) in sets.items() if op != 'Eq']
+  key = 'LMNN._find_impostors'
+  if len(ins) != 1 or len(outs) != 1:
+    rep.unknown(R, key + ':classes', site(f, lp), 'in / out index sets not '
+                'recognised: %s' % {k: v[0] for k, v in sets.items()})
+    return
+  A, B = outs[0], ins[0]
+  op, st_ = sets[A]
+  full = it in ('self.labels_', 'np.unique(label_inds)')
+  if (op == 'Gt' and (it == 'self.labels_[:-1]' or full)) or \
+          (op == 'Lt' and (it == 'self.labels_[1:]' or full)):
+    rep.derived(R, key + ':classes', site(f, st_))
+  elif op == 'NotEq':
+    rep.refuted(R, key + ':classes', site(f, st_), 'out set is label != c: '
+                'with three or more classes every pair of classes not '
+                'involving the last visited one is enumerated twice, its push '
+                'terms count double in the objective and the gradient')
+  elif op in ('GtE', 'LtE'):
+    rep.refuted(R, key + ':classes', site(f, st_), 'out set includes the '
+                'class itself: same-class points become impostors')
+  elif op in ('Gt', 'Lt'):
+    rep.refuted(R, key + ':classes', site(f, st_), 'classes visited: %s with '
+                'out = label %s c: some pairs of classes are never examined'
+                % (it, '>' if op == 'Gt' else '<'))
+  else:
+    rep.unknown(R, key + ':classes', site(f, st_), 'operator %s' % op)
+  # axes of the distance block
+  dcall = [s_ for s_ in lp.body if isinstance(s_, ast.Assign) and
+           isinstance(s_.value, ast.Call) and
+           canon(repo.dotted(f.module, s_.value.func) or '') ==
+           canon('sklearn.metrics.euclidean_distances')]
+  if len(dcall) != 1 or len(dcall[0].value.args) < 2:
+    rep.unknown(R, key + ':axes', site(f, lp), 'distance block not found')
+    return
+  rows = ast.unparse(dcall[0].value.args[0])
+  cols = ast.unparse(dcall[0].value.args[1])
+  dn_ = ast.unparse(dcall[0].targets[0])
+  m = {}
+  for nm in (A, B):
+    for tx in (rows, cols):
+      if tx.endswith('[%s]' % nm):
+        m['rows' if tx is rows else 'cols'] = nm
+  if set(m) != {'rows', 'cols'} or m['rows'] == m['cols']:
+    rep.unknown(R, key + ':axes', site(f, dcall[0]), 'rows %s / columns %s'
+                % (rows, cols))
+    return
+  cmps = [n for n in ast.walk(lp) if isinstance(n, ast.Compare) and
+          ast.unparse(n.left) == dn_ and len(n.ops) == 1 and
+          isinstance(n.ops[0], (ast.Lt, ast.LtE))]
+  seen = set()
+  bad = None
+  n_rec = 0
+  for c in cmps:
+    rt = ast.unparse(c.comparators[0])
+    n_rec += any(rt in ('margin_radii[%s][:, None]' % nm,
+                        'margin_radii[%s]' % nm,
+                        'margin_radii[%s][None, :]' % nm) for nm in (A, B))
+    for nm in (A, B):
+      if rt == 'margin_radii[%s][:, None]' % nm:
+        seen.add(('rows', nm))
+        if m['rows'] != nm:
+          bad = (c, 'radius of %s broadcast along the rows, which hold %s'
+                 % (nm, m['rows']))
+      elif rt == 'margin_radii[%s]' % nm or \
+              rt == 'margin_radii[%s][None, :]' % nm:
+        seen.add(('cols', nm))
+        if m['cols'] != nm:
+          bad = (c, 'radius of %s broadcast along the columns, which hold %s'
+                 % (nm, m['cols']))
+  if bad:
+    rep.refuted(R, key + ':axes', site(f, bad[0]), bad[1])
+  elif seen == {('rows', m['rows']), ('cols', m['cols'])}:
+    rep.derived(R, key + ':axes', site(f, dcall[0]))
+  elif n_rec == len(cmps) and cmps:
+    miss = sorted({('rows', m['rows']), ('cols', m['cols'])} - seen)
+    rep.refuted(R, key + ':axes', site(f, dcall[0]), 'the margin of the '
+                'points along the %s (%s) is never tested: their impostors '
+                'are missed' % miss[0])
+  else:
+    rep.unknown(R, key + ':axes', site(f, dcall[0]), 'margin comparisons '
+                'found: %s' % sorted(seen))
+  # returned pairs
+  app = [n for n in ast.walk(lp) if isinstance(n, ast.Call) and
+         ast.unparse(n.func) == 'impostors.append' and n.args]
+  if len(app) == 1:
+    t = ast.unparse(app[0].args[0])
+    good = ('np.vstack((%s[j], %s[i]))' % (m['cols'], m['rows']),
+            'np.vstack((%s[i], %s[j]))' % (m['rows'], m['cols']))
+    if t in good:
+      rep.derived(R, key + ':pairs', site(f, app[0]))
+    elif t in ('np.vstack((%s[i], %s[j]))' % (m['cols'], m['rows']),
+               'np.vstack((%s[j], %s[i]))' % (m['rows'], m['cols'])):
+      rep.refuted(R, key + ':pairs', site(f, app[0]), 'row index used on the '
+                  'column set and conversely: %s' % t)
+    else:
+      rep.unknown(R, key + ':pairs', site(f, app[0]), t)
+  else:
+    rep.unknown(R, key + ':pairs', site(f, lp), 'append not found')
+
+
 def check(repo, rep, tier):
   rule_lmnn_acceptance(repo, rep)
   rule_optimizer_handoff(repo, rep)
   rule_self_exclusion(repo, rep)
   rule_stable_softmax(repo, rep)
   rule_lmnn_objective(repo, rep)
+  rule_lmnn_impostor_enumeration(repo, rep)
 
 
